@@ -64,6 +64,8 @@ def run(tier, seed):
             rep = d.call({"op": "c17_compounds", "keys": keys, "count": ncomp, "seed": seed}, timeout=7200)
             acc.evaluations += rep["count"]
             acc.counters["random_compounds_" + kind] = rep["count"]
+            acc.counters["compounds_changed_through_update_before_writing_" + kind] = rep.get("changed_through_update", 0)
+            acc.counters["compounds_written_with_a_cancelled_unit(power 0)_" + kind] = rep.get("written_with_a_cancelled_unit", 0)
             for i in range(rep["distinct"]):
                 acc.nontrivial.add(("c", kind, i))
             for v in rep["violations"]:
